@@ -1119,7 +1119,7 @@ func (w *World) errTolerated(fn *ssa.Function, call *ssa.Call, nres int) (token.
 					exits := false
 					for _, in := range b.Instrs {
 						if c, ok := in.(ssa.CallInstruction); ok {
-							if n := calleeName(c); n == "os.Exit" || n == "infrastructure/logger.Fatal" || n == "log.Fatal" || n == "log.Fatalf" {
+							if n := calleeName(c); n == "os.Exit" || n == "log.Fatal" || n == "log.Fatalf" || n == "log.Fatalln" { // (gleece's own logger.Fatal only logs)
 								exits = true
 							}
 						}
